@@ -26,7 +26,12 @@ func tf(b bool) byte {
 
 // place copies s at every alignment 0..7 inside a larger buffer (with hostile neighbours) and
 // calls f on each placement; the observable is the common answer, or MIXED if they differ.
-func placed(s []byte, f func(b []byte, str string) (bool, bool)) string {
+func placed(s []byte, f func(b []byte, str string) (bool, bool)) (out string) {
+	defer func() {
+		if recover() != nil {
+			out = "PANIC"
+		}
+	}()
 	var res []byte
 	for off := 0; off < 8; off++ {
 		buf := make([]byte, len(s)+24)
@@ -34,6 +39,9 @@ func placed(s []byte, f func(b []byte, str string) (bool, bool)) string {
 			buf[i] = 0xff
 		}
 		b := buf[off : off+len(s) : off+len(s)]
+		if off%2 == 1 {
+			b = buf[off : off+len(s)] // spare capacity holding 0xff bytes: only len(b) bytes belong to the input
+		}
 		copy(b, s)
 		x, y := f(b, string(b))
 		if x != y {
@@ -49,7 +57,12 @@ func placed(s []byte, f func(b []byte, str string) (bool, bool)) string {
 	return string(res[:1])
 }
 
-func placed2(s, p []byte, f func(a, b []byte, as, bs string) (bool, bool)) string {
+func placed2(s, p []byte, f func(a, b []byte, as, bs string) (bool, bool)) (out string) {
+	defer func() {
+		if recover() != nil {
+			out = "PANIC"
+		}
+	}()
 	var res []byte
 	for off := 0; off < 8; off += 1 {
 		buf := make([]byte, len(s)+24)
@@ -63,6 +76,9 @@ func placed2(s, p []byte, f func(a, b []byte, as, bs string) (bool, bool)) strin
 		a := buf[off : off+len(s) : off+len(s)]
 		o2 := (off * 3) % 8
 		b := buf2[o2 : o2+len(p) : o2+len(p)]
+		if off%2 == 1 {
+			a, b = buf[off:off+len(s)], buf2[o2:o2+len(p)] // spare capacity beyond the inputs
+		}
 		copy(a, s)
 		copy(b, p)
 		x, y := f(a, b, string(a), string(b))
@@ -131,7 +147,9 @@ func c20fold(a, b []byte) {
 		skip()
 		return
 	}
-	emit("a.fold", hexs(a)+" "+hexs(b), placed2(a, b, func(x, y []byte, xs, ys string) (bool, bool) { return ascii.EqualFold(x, y), ascii.EqualFoldString(xs, ys) }), string(tf(foldSpec(a, b))))
+	emit("a.fold", hexs(a)+" "+hexs(b), placed2(a, b, func(x, y []byte, xs, ys string) (bool, bool) {
+		return ascii.EqualFold(x, y), ascii.EqualFoldString(xs, ys)
+	}), string(tf(foldSpec(a, b))))
 }
 
 func c20prefix(s, p []byte) {
@@ -140,7 +158,9 @@ func c20prefix(s, p []byte) {
 		return
 	}
 	o := len(s) >= len(p) && foldSpec(s[:len(p)], p)
-	emit("a.prefix", hexs(s)+" "+hexs(p), placed2(s, p, func(x, y []byte, xs, ys string) (bool, bool) { return ascii.HasPrefixFold(x, y), ascii.HasPrefixFoldString(xs, ys) }), string(tf(o)))
+	emit("a.prefix", hexs(s)+" "+hexs(p), placed2(s, p, func(x, y []byte, xs, ys string) (bool, bool) {
+		return ascii.HasPrefixFold(x, y), ascii.HasPrefixFoldString(xs, ys)
+	}), string(tf(o)))
 }
 
 func c20suffix(s, p []byte) {
@@ -149,7 +169,9 @@ func c20suffix(s, p []byte) {
 		return
 	}
 	o := len(s) >= len(p) && foldSpec(s[len(s)-len(p):], p)
-	emit("a.suffix", hexs(s)+" "+hexs(p), placed2(s, p, func(x, y []byte, xs, ys string) (bool, bool) { return ascii.HasSuffixFold(x, y), ascii.HasSuffixFoldString(xs, ys) }), string(tf(o)))
+	emit("a.suffix", hexs(s)+" "+hexs(p), placed2(s, p, func(x, y []byte, xs, ys string) (bool, bool) {
+		return ascii.HasSuffixFold(x, y), ascii.HasSuffixFoldString(xs, ys)
+	}), string(tf(o)))
 }
 
 func c20byte(v int) {
@@ -291,4 +313,41 @@ func c20() {
 		}
 		c20fold(s, t)
 	}
+	// (5) arguments that SHARE memory: two windows of one buffer / two substrings of one string (a pointer-equality
+	// shortcut must still compare lengths and contents)
+	for _, l := range []int{1, 2, 7, 8, 9, 16, 20, 33} {
+		buf := make([]byte, l+4)
+		for i := range buf {
+			buf[i] = byte('a' + i%26)
+			if i%3 == 0 {
+				buf[i] -= 32
+			}
+		}
+		for _, w := range [][4]int{{0, l, 0, l}, {0, l, 0, l - 1}, {0, l - 1, 0, l}, {0, l, 0, 1}, {0, 1, 0, l}, {0, l, 1, l + 1}, {1, l, 0, l - 1}, {0, l, 0, 0}, {2, 2 + l/2, 2, 2 + l/2}, {0, l, l / 2, l}, {0, l, 0, l / 2}} {
+			if w[1] < w[0] || w[3] < w[2] {
+				continue
+			}
+			c20alias(buf, w)
+		}
+	}
+}
+
+func c20alias(buf []byte, w [4]int) {
+	if !mine() {
+		skip()
+		return
+	}
+	str := string(buf)
+	a, b := buf[w[0]:w[1]], buf[w[2]:w[3]]
+	as, bs := str[w[0]:w[1]], str[w[2]:w[3]]
+	impl := guarded(func() string {
+		r := []byte{tf(ascii.EqualFold(a, b)), tf(ascii.EqualFoldString(as, bs)), tf(ascii.HasPrefixFold(a, b)), tf(ascii.HasPrefixFoldString(as, bs)), tf(ascii.HasSuffixFold(a, b)), tf(ascii.HasSuffixFoldString(as, bs))}
+		return string(r)
+	})
+	ca, cb := append([]byte(nil), a...), append([]byte(nil), b...)
+	pre := len(ca) >= len(cb) && foldSpec(ca[:len(cb)], cb)
+	suf := len(ca) >= len(cb) && foldSpec(ca[len(ca)-len(cb):], cb)
+	eq := foldSpec(ca, cb)
+	orc := string([]byte{tf(eq), tf(eq), tf(pre), tf(pre), tf(suf), tf(suf)})
+	emit("a.alias", fmt.Sprintf("%s %d %d %d %d", hexs(buf), w[0], w[1], w[2], w[3]), impl, orc)
 }
